@@ -98,6 +98,7 @@ type Conn struct {
 	CloseCount  int
 	CloseWrites int
 	CloseReads  int
+	CloseWriteAt time.Time // virtual time of the first CloseWrite (zero = never)
 	// fault hooks, consulted before the operation proceeds (may call vsched.Choose)
 	ReadFault  func() error
 	WriteFault func(n int) (short int, err error)
@@ -229,6 +230,9 @@ func (c *Conn) CloseWrite() error {
 	vsched.Point(vsched.OpIO, unsafe.Pointer(c.wr))
 	c.wr.mu.Lock()
 	c.CloseWrites++
+	if c.CloseWriteAt.IsZero() {
+		c.CloseWriteAt = vtime.Now()
+	}
 	c.wr.wclosed = true
 	c.wr.cond.Broadcast()
 	c.wr.mu.Unlock()
